@@ -149,6 +149,9 @@ func recacheAggregatorContext(ctx sdk.Context, agc *aggregator.AggregatorContext
 		agc.PrepareRoundEndBlock(uint64(to - 1))
 	}
 
+	// a round that already has its round id recorded in the store is not open any more
+	agc.CloseRoundsRecorded(func(tokenID uint64) uint64 { return k.GetNextRoundID(ctx, tokenID) })
+
 	var pRet cache.ItemP
 	if updated := c.GetCache(&pRet); !updated {
 		c.AddCache(cache.ItemP(*p))
